@@ -273,3 +273,7 @@ def plain_value(v: Any) -> Any:
     if isinstance(v, list):
         return [plain_value(x) for x in v]
     return v
+
+
+def type_contains_struct(t: Type) -> bool:
+    return isinstance(type_leaf(t), StructRef)
